@@ -11,6 +11,9 @@
 //            observationally equal to folding the individual Extracts in order over the same carrier,
 //            the carrier Get calls are the concatenation of theirs, the caller's context is unchanged,
 //            and the caller's context itself comes back iff the fold returns it.
+//   Fields : the composite's Fields() with a callback that returns false at its k-th call (every k, and never)
+//            against the concatenation of the parts' field lists and the documented return value; each part's
+//            field list against the keys its Inject writes; every key the composite's Inject writes is a field.
 // The individual propagators are the reference: their own correctness is C09 / C16 / C15(a,b).
 #include <algorithm>
 
@@ -129,6 +132,12 @@ std::string observe(const ctxns::Context &ctx) {
 
 std::string join(const std::vector<std::string> &v) { std::string s; for (auto &x : v) s += x + " "; return s; }
 
+std::vector<std::string> fields_of(const TextMapPropagator &p) {
+  std::vector<std::string> f;
+  p.Fields([&](nostd::string_view k) noexcept { f.emplace_back(k.data(), k.size()); return true; });
+  return f;
+}
+
 void run_inject(vf::Ctx &c, const std::vector<int> &subset) {
   int ci = c.pick("context", kInjectContexts);
   int prefilled = c.pick("carrier", 2);
@@ -164,6 +173,13 @@ void run_inject(vf::Ctx &c, const std::vector<int> &subset) {
   if (car.log != want_log)
     c.fail("C15:composite:inject-order", desc() + " called " + join(car.log) + ", the individual propagators in order call " + join(want_log));
   if (observe(ctx) != before) c.fail("C15:composite:inject-modified-context", desc() + " changed the context to " + observe(ctx));
+  // every key written is one of the composite's Fields() ("fields set to carrier by `inject` method")
+  {
+    std::vector<std::string> fl = fields_of(comp);
+    for (auto &l : car.log)
+      if (l.compare(0, 2, "S:") == 0 && std::find(fl.begin(), fl.end(), l.substr(2)) == fl.end())
+        c.fail("C15:composite:inject-key-not-in-fields", desc() + " wrote the key '" + l.substr(2) + "', Fields() reports { " + join(fl) + "}");
+  }
   c.state("inj|" + car.dump());
   c.outcome("inj|" + car.dump());
   if (subset.size() == 2 && ci == 4) c.sample(desc() + " => { " + car.dump() + "}");
@@ -210,10 +226,66 @@ void run_extract(vf::Ctx &c, const std::vector<int> &subset) {
   if (subset.size() == 2 && code == 121 && bi == 0) c.sample(desc() + " => " + got);
 }
 
+// Fields(). Documented (text_map_propagator.h): "Gets the fields set in the carrier by the `inject` method";
+// composite_propagator.h: "Invoke callback with fields set to carrier by `inject` method for all the configured
+// propagators. Returns true if all invocation return true".
+//   individual propagators: the set of reported fields = the set of keys Inject writes for the context that has
+//     everything (sampled span + trace state + baggage);
+//   composite: with a callback that returns false at its call #k (k = 0..N-1, and never): the calls are the
+//     concatenation of the parts' field lists, in order, at least up to and including call #k, all N when the
+//     callback never returns false; the result is true iff no call returned false.
+//   Not documented, counted only: whether further calls follow one that returned false, and which.
+void run_fields(vf::Ctx &c, const std::vector<int> &subset) {
+  std::vector<std::string> want;
+  ctxns::Context full = inject_context(4);
+  for (int i : subset) {
+    c.stage("individual.Fields");
+    auto p = make_prop(i);
+    std::vector<std::string> f = fields_of(*p);
+    Carrier one;
+    p->Inject(one, full);
+    std::vector<std::string> fs = f, ks;
+    for (auto &e : one.plain) ks.push_back(e.first);
+    std::sort(fs.begin(), fs.end());
+    if (fs != ks || std::adjacent_find(fs.begin(), fs.end()) != fs.end())
+      c.fail(std::string("C15:fields:differ-from-inject:") + kPropName[i],
+             std::string(kPropName[i]) + ".Fields reports { " + join(f) + "}, Inject of a context with a sampled span, trace state and baggage writes { " + one.dump() + "}");
+    want.insert(want.end(), f.begin(), f.end());
+  }
+  const int N = (int)want.size();
+  const int k = c.pick("false-at-call", N + 1);  // N: never
+  std::vector<std::unique_ptr<TextMapPropagator>> ps;
+  for (int i : subset) ps.push_back(make_prop(i));
+  ctxns::propagation::CompositePropagator comp(std::move(ps));
+  c.stage("composite.Fields");
+  std::vector<std::string> calls;
+  bool ret = comp.Fields([&](nostd::string_view key) noexcept {
+    calls.emplace_back(key.data(), key.size());
+    return (int)calls.size() - 1 != k;
+  });
+  c.step();
+  auto desc = [&]() { return "composite " + subset_name(subset) + (k < N ? vf::sfmt(".Fields with a callback returning false at call #%d", k) : std::string(".Fields with a callback that always returns true")); };
+  // judged: the calls up to and including the first one that returned false (all of them, and no more, when none did)
+  size_t least = (size_t)std::min(k + 1, N);
+  bool ok = calls.size() >= least && std::equal(want.begin(), want.begin() + (long)least, calls.begin()) && (k < N || calls.size() == want.size());
+  if (!ok)
+    c.fail(k < N ? "C15:composite:fields-before-stop" : "C15:composite:fields-differ-from-concatenation",
+           desc() + " reported { " + join(calls) + "}, the configured propagators in order report { " + join(want) + "}");
+  if (ret != (k >= N))
+    c.fail("C15:composite:fields-return-value", desc() + vf::sfmt(" returned %d after %zu calls { ", (int)ret, calls.size()) + join(calls) + "}; documented: true if all invocations return true");
+  if (k < N) c.counted(calls.size() == (size_t)k + 1 ? "fields_stop_after_false" : "fields_continue_after_false");
+  c.state("fld|" + join(calls) + (ret ? "|1" : "|0"));
+  c.outcome("fld|" + join(calls) + (ret ? "|1" : "|0"));
+  if (subset.size() == 2 && k == 1) c.sample(desc() + " => { " + join(calls) + vf::sfmt("} returned %d", (int)ret));
+}
+
 void run(vf::Ctx &c) {
   const std::vector<int> &subset = g_subsets[c.pick("subset", (int)g_subsets.size())];
-  if (c.pick("direction", 2) == 0) run_inject(c, subset);
-  else run_extract(c, subset);
+  switch (c.pick("direction", 3)) {
+    case 0: run_inject(c, subset); break;
+    case 1: run_extract(c, subset); break;
+    default: run_fields(c, subset); break;
+  }
 }
 
 }  // namespace
